@@ -244,7 +244,7 @@ TIE_ADDENDA = {
  "C15": " Global determinism (Props/C15Det.lean): under unambiguous minima the sequence of merges, read as (member set, height), is determined by the matrix — two complete average-linkage runs from equivalent states agree position by position; the executable UPGMA on the same labelled matrix in ANY taxon order returns the same (leaf-name set, height) nodes, and the executable's own tie=false flag certifies the hypothesis; a kernel-checked tie shows the hypothesis is needed.",
  "C16": " Inputs also include repeated tip labels and the `tomb2` arena layout.",
  "C19": " Layout::rescale is exercised with ordinary, negative, zero (either sign), subnormal, huge and infinite factors, each group on a fresh drawing.",
- "C20": " The outcome class (Ok / Err) of every two-tree comparison on every subject x partner pair with exactly one live root each is compared with the split model: an Ok where the model refuses the pair (or the reverse) is reported.",
+ "C20": " Every mutating matrix call, accepted or refused, is followed by a battery of every reader and writer on the object it leaves behind; Display / Debug of every node on labels mixing 1- to 4-byte characters; add_child / add with a copy of a node of the tree. The outcome class (Ok / Err) of every two-tree comparison on every subject x partner pair with exactly one live root each is compared with the split model: an Ok where the model refuses the pair (or the reverse) is reported.",
 }
 for _p, _t in TIE_ADDENDA.items():
     CLAIMS[_p]["text"] = CLAIMS[_p]["text"].rstrip() + _t
